@@ -15,6 +15,8 @@ var errHook = errors.New("verif: hook error")
 type hookCtl struct {
 	events  []string
 	inTx    []bool
+	logPos  []int  // length of the store's event log when the hook ran
+	store   *Store
 	n       int
 	failAt  int    // 1-based invocation index that fails (0 = none)
 	writeIn string // hook name that writes an audit row through tx ("" = none)
@@ -31,6 +33,11 @@ func hookEvent(tx *gorm.DB, hook string, rec *HRec) error {
 	_, inTx := tx.Statement.ConnPool.(gorm.TxCommitter)
 	h.events = append(h.events, hook+":"+rec.Name)
 	h.inTx = append(h.inTx, inTx)
+	if h.store != nil {
+		h.logPos = append(h.logPos, len(h.store.Log))
+	} else {
+		h.logPos = append(h.logPos, 0)
+	}
 	if h.writeIn == hook {
 		if err := tx.Exec("INSERT INTO audit VALUES (?)", rec.Name).Error; err != nil {
 			return err
@@ -77,4 +84,22 @@ func (k *HKid) BeforeCreate(tx *gorm.DB) error {
 }
 func (k *HKid) AfterCreate(tx *gorm.DB) error {
 	return hookEvent(tx, "Kid.AfterCreate", &HRec{Name: k.Name})
+}
+
+// A hooked belongs-to target shared by several parents (C13).
+type HBoss struct {
+	ID   uint
+	Name string
+}
+
+func (b *HBoss) BeforeSave(tx *gorm.DB) error   { return hookEvent(tx, "Boss.BeforeSave", &HRec{Name: b.Name}) }
+func (b *HBoss) BeforeCreate(tx *gorm.DB) error { return hookEvent(tx, "Boss.BeforeCreate", &HRec{Name: b.Name}) }
+func (b *HBoss) AfterCreate(tx *gorm.DB) error  { return hookEvent(tx, "Boss.AfterCreate", &HRec{Name: b.Name}) }
+func (b *HBoss) AfterSave(tx *gorm.DB) error    { return hookEvent(tx, "Boss.AfterSave", &HRec{Name: b.Name}) }
+
+type HWorker struct {
+	ID     uint
+	Name   string
+	BossID uint
+	Boss   *HBoss
 }
